@@ -1112,6 +1112,10 @@ theorem finaliseOne_ok_node {n : Node} {ts : Nat} {h : String} {count : Nat} {ev
     · cases hok
     rename_i hfin
     rw [if_neg hfin]
+    split at hok
+    · cases hok
+    rename_i hnps
+    rw [if_neg hnps]
     cases h5 : applyEvents n n.nextHeight evs with
     | none => rw [h5] at hok; cases hok
     | some n' =>
@@ -1238,6 +1242,7 @@ def gAddRawTx (n : Node) (G : Ghost) (ts : Nat) (hash0 : String) (idx : Nat) (tx
       if nonce > acct ∧ nonce < acct + FUTURE_NONCES then
         if !(txRuns evs).isEmpty then G
         else if !poolOnly evs then G
+        else if !parkedShape sender nonce n.nextHeight evs then G
         else match applyEvents n n.nextHeight evs with
           | none => G
           | some _ => G.events evs
@@ -1288,9 +1293,12 @@ theorem RInv.addRawTx {n : Node} {G : Ghost} (h : RInv n G) (ts : Nat) (hash0 : 
           · rw [if_pos h4, if_pos h4]; exact h
           · rw [if_neg h4, if_neg h4]
             have hp : poolOnly evs = true := by simpa using h4
-            cases ha : applyEvents n n.nextHeight evs with
-            | none => exact h
-            | some n' => exact h.parked hp ha
+            by_cases h5 : (!parkedShape sender nonce n.nextHeight evs) = true
+            · rw [if_pos h5, if_pos h5]; exact h
+            · rw [if_neg h5, if_neg h5]
+              cases ha : applyEvents n n.nextHeight evs with
+              | none => exact h
+              | some n' => exact h.parked hp ha
       · rw [if_neg h2, if_neg h2]
         split <;> exact h
     · rw [if_neg h1, if_neg h1]
